@@ -71,6 +71,9 @@ EXTREME = ["A%%=-32767-1:B%%=-1:PRINT A%% %s B%%" % op for op in ("MOD", "\\", "
            # temporaries are not held to the 255 limit of stored strings: a concatenation can grow past what LEN can report
            "X$=STRING$(255,\"x\"):PRINT LEN(" + "+".join(["X$"] * 129) + ")", "X$=STRING$(255,\"x\"):PRINT LEN(" + "+".join(["X$"] * 128) + ")",
            "X$=STRING$(255,\"x\"):Y$=LEFT$(" + "+".join(["X$"] * 129) + ",3):PRINT Y$", "PRINT TAB(0);\"a\";TAB(.5);\"b\";SPC(0);\"c\""]
+# arrays are sparse: the largest bounds DIM accepts cost nothing until elements are stored
+EXTREME += ["DIM A(32767,32767,32767,32767):A(32767,0,32767,1)=7:PRINT A(32767,0,32767,1);A(1,1,1,1)", 'DIM B$(32767,32767,32767,32767,32767):B$(0,0,0,0,32767)="OK":PRINT B$(0,0,0,0,32767)',
+            "DIM C%(32767,32767):C%(32767,32767)=1:PRINT C%(32767,32767);C%(0,0)", "DIM D#(32767):D#(32767)=2:ERASE D#:DIM D#(32767,32767,32767)"]
 DIRECT = EXTREME + ["RUN", "RUN 20", "LIST", "LIST 10-20", "CONT", "NEW", "RENUM", "RENUM 5,0,0", "RENUM 65529", "DELETE 10", "DELETE 10-", "DELETE",
           "SAVE \"f\"", "LOAD \"f\"", "RUN \"f\"", "CLEAR", "PRINT 1/0", "PRINT -(-32767-1)", "PRINT ABS(-32767-1)", "A$=INKEY$", "INPUT Q", "INPUT Q$,R$",
           "GOTO 10", "GOSUB 10", "RETURN", "NEXT", "WEND", "FOR I=1 TO 1E30", "DIM Z(32767)", "DIM Z(10,10,10,10)", "PRINT STRING$(255,\"x\")+STRING$(255,\"y\")",
@@ -198,6 +201,19 @@ def legal_session_cases(tier, rng):
             calls += [sess.E("PRINT 7"), "R5000"]
             out.append(Case(sess.session(calls), sig="extreme operands: " + " / ".join(EXTREME[chunk:chunk + 8]), tag="extreme", profile=prof,
                             meta=("session", 0)))
+    # the deepest nesting a line of at most 1024 bytes can spell, in every nesting form: the recursive-descent parser, the code
+    # generator's walk and the destructor of the tree all recurse once per level, on the stack of the calling thread (the
+    # harness runs cases on threads with the 8 MB the operating system gives the real program's main thread)
+    deep = ["?" + "-" * 1000 + "1", "?" + "(" * 500 + "1" + ")" * 500, "?" + "NOT " * 250 + "1", "?" + "ABS(" * 200 + "1" + ")" * 200,
+            "IF 1 THEN " * 100 + "PRINT 5", "A=" + "-" * 1000 + "1", "?" + "A(" * 330 + "1" + ")" * 330, "?" + "1+(" * 300 + "1" + ")" * 300,
+            "?" + "-(" * 330 + "1" + ")" * 330, "IF 0 THEN ELSE " * 65 + "PRINT 6", "?" + "1^" * 500 + "1", "?" + "FNA(" * 200 + "1" + ")" * 200]
+    for prof in ("dev", "dbg"):
+        for d in deep:
+            for text in (d, "10 " + d):
+                calls = ["R5000", sess.E(text), "R5000"] + ([sess.E("RUN"), "R5000"] if text.startswith("10 ") else []) + \
+                        [sess.E("LIST"), "R5000", sess.E("PRINT 7"), "R5000"]
+                out.append(Case(sess.session(calls), sig="deepest nesting: %s... (%d characters)" % (text[:24], len(text)), tag="deep-nesting",
+                                profile=prof, side="impl", meta=("session", 0)))
     # pools at their edge when a reply arrives (the value stack holds the reply's fields)
     for depth in (65520, 65526, 65528, 65530, 65532):
         for stmt, reply in (("INPUT A,B,C,D,E,F,G,H", "1,2,3,4,5,6,7,8"), ("INPUT A$", "x"), ("A$=INKEY$", "k"), ("INPUT A,B", "1")):
